@@ -864,7 +864,9 @@ impl Scenario for Timers {
             r.probe("runtime_level_source_in_effect", 1);
         }
         r.states = st.into_iter().collect();
-        r.violation = check_c18(&h);
+        if !matches!(failure, Some(detsim::Failure::StepLimit { .. })) {
+            r.violation = check_c18(&h);
+        }
         r.sample = Some(json!({"ops": plan.get("ops"), "history": h.iter().take(50).map(|e| format!("#{} t{} {:?}", e.seq, e.tid, e.k)).collect::<Vec<_>>()}));
         if r.violation.is_none() {
             match failure {
